@@ -309,7 +309,7 @@ def shared_state_lines(store_pkg_dir):
 # -- iterative context bounding ------------------------------------------------
 
 
-def explore(run_one, bound, max_executions=None, on_execution=None):
+def explore(run_one, bound, max_executions=None, on_execution=None, part=None):
     """run_one(prefix) -> Execution.  Explores every schedule with at most `bound` preemptions.
 
     Returns (executions, capped).  The default continuation after a prefix is
@@ -336,6 +336,8 @@ def explore(run_one, bound, max_executions=None, on_execution=None):
                 used += 1
         for i in range(len(prefix), len(x.points)):
             step, rtid, order, running_enabled = x.points[i]
+            if part is not None and not prefix and i % part[1] != part[0]:
+                continue  # another worker explores the deviations at this top-level point
             for alt in range(1, len(order)):
                 cost = pre[i] + (1 if running_enabled else 0)
                 if cost > bound:
